@@ -29,6 +29,8 @@ namespace Oslo.Scalars
 inductive ErrKind | valueError | typeError | overflowError
   deriving DecidableEq, Repr
 
+deriving instance DecidableEq for Except
+
 inductive PyVal
   | str (s : List Char)
   | bool (b : Bool)
@@ -64,9 +66,12 @@ def overLimit (digits : Nat) : Bool := decide (0 < Gen.maxStrDigits ∧ Gen.maxS
 def render (n : Int) : List Char :=
   if n < 0 then '-' :: Nat.toDigits 10 n.natAbs else Nat.toDigits 10 n.natAbs
 
+/-- number of decimal digits of an integer -/
+def numDigits (n : Int) : Nat := (Nat.toDigits 10 n.natAbs).length
+
 /-- `str(n)` for an int: ValueError beyond the digit limit -/
 def pyStrInt (n : Int) : Except ErrKind (List Char) :=
-  if overLimit (Nat.toDigits 10 n.natAbs).length then .error .valueError else .ok (render n)
+  if overLimit (numDigits n) then .error .valueError else .ok (render n)
 
 /-- a non-ASCII Unicode decimal digit (category Nd) and its value -/
 def ndDigit (c : Char) : Option Nat :=
@@ -136,11 +141,11 @@ def skipSign : List Char → List Char
   | c :: r => if c = '-' ∨ c = '+' then r else c :: r
   | [] => []
 
-/-- `int(s, base)` for a str, `base` ∈ {10, 16}; `none` = ValueError.
-    (`_PyLong_FromUnicodeObject` + PyLong_FromString: ASCII transform, leading whitespace,
-    sign, prefix, digit/underscore run, trailing whitespace, nothing else; for base 10 the digit limit.) -/
-def pyIntParse (base : Nat) (s : List Char) : Option Int :=
-  let s1 := (s.map intAscii).dropWhile isIntSpace
+/-- PyLong_FromString on the ASCII-transformed text, `base` ∈ {10, 16}: leading whitespace, sign,
+    prefix (base 16), digit/underscore run, trailing whitespace, nothing else; for base 10 (not a
+    power of two) the digit limit.  `none` = ValueError. -/
+def pyIntParseAscii (base : Nat) (t : List Char) : Option Int :=
+  let s1 := t.dropWhile isIntSpace
   let neg := s1.head? == some '-'
   let s2 := skipSign s1
   let s3 := if base = 16 then skipHexPrefix s2 else s2
@@ -152,6 +157,9 @@ def pyIntParse (base : Nat) (s : List Char) : Option Int :=
   else
     let v : Int := Int.ofNat (bodyValue base body)
     some (if neg then -v else v)
+
+/-- `int(s, base)` for a str (`_PyLong_FromUnicodeObject`): ASCII transform, then PyLong_FromString -/
+def pyIntParse (base : Nat) (s : List Char) : Option Int := pyIntParseAscii base (s.map intAscii)
 
 /-- `str(v)` -/
 def pyStr : PyVal → Except ErrKind (List Char)
